@@ -36,10 +36,18 @@ SELECTORS = {"ws2doptv", "ws2doptvp", "ws2doptvplc", "ws2dwcv", "ws2dwcvp", "_ws
 _I = {}
 
 
-def interp(name):
-    if name not in _I:
-        _I[name] = shim.interp(PR.BY_NAME[name].get())
-    return _I[name]
+def interp(name, deep=False):
+    """deep=False: callees stay compiled (the program is tested at its own level);
+    deep=True: every hdc callee is interpreted as well, so a callee that was compiled differently *because of its caller*
+    (inherited compiler flags, another specialisation) is compared with its source too."""
+    if (name, deep) not in _I:
+        _I[(name, deep)] = shim.interp(PR.BY_NAME[name].get(), deep=deep)
+    return _I[(name, deep)]
+
+
+HAS_HDC_CALLEES = {"autocorr", "autocorr_tyx", "autocorr_1d", "mann_kendall_trend_1d", "mann_kendall_trend_yxt", "_mann_kendall_trend_gu", "_mann_kendall_trend_gu_nd",
+                   "gammafit", "gammastd", "gammastd_yxt", "gammastd_grp", "ws2doptvplc_tyx", "_ws2doptvp", "_ws2dwcvp", "tinterpolate",
+                   "ws2dgu", "ws2dpgu", "ws2doptv", "ws2doptvp", "ws2doptvplc", "ws2dwcv", "ws2dwcvp"}
 
 
 def close(a, b, rtol, atol=1e-12):
@@ -63,9 +71,9 @@ def flatten(res):
     return [np.asarray(res)]
 
 
-def run_interpreted(p, args, compiled_out):
+def run_interpreted(p, args, compiled_out, deep=False):
     """Returns (list of outputs, tap) for one core call of the interpreted source."""
-    f = interp(p.name)
+    f = interp(p.name, deep)
     taps = ["z", "v", "robust_gcv", "gcv_temp", "fits", "pens"] if (p.name in SMOOTHERS or p.name in ("_ws2doptvp", "_ws2dwcvp")) else []
     if p.kind == "gufunc":
         outs = [np.zeros(np.asarray(c).shape if np.asarray(c).ndim else 1, dtype=np.asarray(c).dtype) for c in compiled_out]
@@ -78,9 +86,11 @@ def run_interpreted(p, args, compiled_out):
     return flatten(r), tap
 
 
-def compare_case(R, p, dtype, cls, args):
+def compare_case(R, p, dtype, cls, args, deep=False):
     name = p.name
-    case = {"program": name, "dtype": dtype, "cls": cls, "args": [a if not isinstance(a, type) else a.__name__ for a in args]}
+    case = {"program": name, "dtype": dtype, "cls": cls, "deep": deep, "args": [a if not isinstance(a, type) else a.__name__ for a in args]}
+    if deep:
+        R.count("deep_pairs")
     R.evaluation()
     f = p.get()
     with warnings.catch_warnings():
@@ -95,7 +105,7 @@ def compare_case(R, p, dtype, cls, args):
     with warnings.catch_warnings(record=True) as wlist, np.errstate(all="warn"):
         warnings.simplefilter("always")
         try:
-            iflat, tap = run_interpreted(p, [a.copy() if isinstance(a, np.ndarray) else a for a in args], cflat if cflat is not None else [])
+            iflat, tap = run_interpreted(p, [a.copy() if isinstance(a, np.ndarray) else a for a in args], cflat if cflat is not None else [], deep)
             ierr = None
         except Exception as e:
             iflat, tap, ierr = None, None, e
@@ -214,6 +224,13 @@ def shard_programs(spec, R):
                         R.count("stopped_on_budget")
                         break
                     compare_case(R, p, dtype, cls, p.gen(rng, cls, dtype))
+            # callees interpreted too (small inputs: the interpreted solver loops are slow)
+            if name in HAS_HDC_CALLEES:
+                for cls, reps in (("min", 1), ("edge", spec.get("reps_deep", 3))):
+                    for _ in range(reps):
+                        if R.out_of_time():
+                            break
+                        compare_case(R, p, dtype, cls, p.gen(rng, cls, dtype), deep=True)
         R.count("programs_compared")
 
 
@@ -292,7 +309,7 @@ def shard_special(spec, R):
 
 def plan(tier, seed):
     q = tier == "quick"
-    specs = [{"kind": "programs", "group": g, "reps_min": 2, "reps_edge": 6 if q else 40, "reps_random": 10 if q else 100, "budget_s": 150 if q else 2400} for g in range(len(GROUPS))]
+    specs = [{"kind": "programs", "group": g, "reps_min": 2, "reps_edge": 6 if q else 40, "reps_random": 10 if q else 100, "reps_deep": 3 if q else 12, "budget_s": 150 if q else 2400} for g in range(len(GROUPS))]
     specs.append({"kind": "special", "points": 3000 if q else 10000, "mp_points": 60 if q else 400})
     return specs
 
@@ -309,7 +326,7 @@ def finalize(agg, tier):
     for p in PR.PROGRAMS:
         if c.get(f"pairs_{p.name}", 0) == 0:
             out.append(f"no compiled/interpreted pair observed for {p.name}")
-    for k in ("special_points_digamma", "special_points_gammainc", "special_points_ndtri", "mpmath_points", "signature_checks"):
+    for k in ("special_points_digamma", "special_points_gammainc", "special_points_ndtri", "mpmath_points", "signature_checks", "deep_pairs"):
         if c.get(k, 0) == 0:
             out.append(f"monitor {k} never evaluated")
     return out
@@ -321,4 +338,4 @@ def replay(case, R):
         return
     p = PR.BY_NAME[case["program"]]
     args = [getattr(np, a) if isinstance(a, str) and a in ("float32", "float64") else a for a in case["args"]]
-    compare_case(R, p, case["dtype"], case.get("cls", "replay"), args)
+    compare_case(R, p, case["dtype"], case.get("cls", "replay"), args, deep=bool(case.get("deep", False)))
